@@ -87,7 +87,7 @@ pub fn k_get_tag_first_match() {
     kani::assume(le32(b, 12) == 12 && le32(b, 28) == 12 && le32(b, 44) == 8);
     kani::assume(le32(b, 48) == 0 && le32(b, 52) == 8);
     let (t1, t2, t3) = (le32(b, 8), le32(b, 24), le32(b, 40));
-    kani::assume(t1 != 0 && t2 != 0 && t3 != 0);
+    kani::assume(t1 != 0 && t2 != 0 && t3 > 21);   // third tag: a custom type no getter looks for
     let bi = unsafe { BootInformation::load(b.as_ptr().cast()) }.unwrap();
     // ImageLoadPhysAddrTag: type 21, size 12
     let got = bi.load_base_addr_tag();
@@ -111,25 +111,28 @@ pub fn k_get_tag_first_match() {
     kani::cover!(t1 != 21 && t2 == 21);
 }
 
-// ---- C04: the EFI memory map is withheld while a boot-services-not-exited tag is present
+// ---- C04: the EFI memory map is withheld while a boot-services-not-exited tag is present,
+// whichever of the two comes first in the region
 #[kani::proof]
 #[kani::unwind(7)]
 pub fn k_efi_mmap_withheld() {
     let region = AlignedBytes(kani::any::<[u8; 48]>());
     let b = &region.0;
     kani::assume(le32(b, 0) == 48);
-    // two tags: A at 8 (size 16), B at 24 (size 16), end tag at 40; one is an EFI mmap (17, size 16 = empty map), the other symbolic
-    kani::assume(le32(b, 12) == 16 && le32(b, 28) == 16);
+    // X: 8-byte tag at 8, Y: EFI memory map (type 17, size 16 = empty map) at 16, Z: 8-byte tag at 32, end tag at 40
+    kani::assume(le32(b, 12) == 8 && le32(b, 16) == 17 && le32(b, 20) == 16 && le32(b, 36) == 8);
     kani::assume(le32(b, 40) == 0 && le32(b, 44) == 8);
-    let (ta, tb) = (le32(b, 8), le32(b, 24));
-    kani::assume((ta == 17 && (tb == 18 || tb == 4)) || (tb == 17 && (ta == 18 || ta == 4)));
-    // a boot-services tag (18) has size 8 per spec: give it size 8 when chosen
-    kani::assume(ta != 18 || le32(b, 12) == 8 || true);
+    let (tx, tz) = (le32(b, 8), le32(b, 32));
+    // each 8-byte tag is either the boot-services-not-exited tag (18) or a custom tag nobody looks for
+    kani::assume((tx == 18 || tx > 21) && (tz == 18 || tz > 21));
     let bi = unsafe { BootInformation::load(b.as_ptr().cast()) }.unwrap();
-    let bs_present = ta == 18 || tb == 18;
+    let bs_present = tx == 18 || tz == 18;
     assert!(bi.efi_memory_map_tag().is_some() == !bs_present);
     assert!(bi.efi_bs_not_exited_tag().is_some() == bs_present);
-    kani::cover!(ta == 18);
-    kani::cover!(tb == 18);
+    if let Some(m) = bi.efi_memory_map_tag() {
+        assert!(core::ptr::addr_of!(*m).cast::<u8>() == unsafe { b.as_ptr().add(16) });
+    }
+    kani::cover!(tx == 18 && tz != 18);
+    kani::cover!(tz == 18 && tx != 18);
     kani::cover!(!bs_present);
 }
